@@ -62,7 +62,20 @@ def run(run):
     def r1():
         g = F.fn("get_modules", mod="cwe_checker_lib") if F.find_fns(name="get_modules", mod="cwe_checker_lib") else F.fn("get_modules")
         t = S.Sym(F).term(g["body"])
-        listed = [x[1] for x in S.subterms(t) if isinstance(x, tuple) and x and x[0] == "const" and x[1] in statics]
+
+        def module_refs(term, depth=0):
+            """references to check-module statics in term, looking through statics / consts that hold the list"""
+            out = []
+            for x in S.subterms(term):
+                if isinstance(x, tuple) and x and x[0] == "const":
+                    if x[1] in statics:
+                        out.append(x[1])
+                    elif depth < 3:
+                        holder = [f_ for f_ in F.fns if f_["dk"].startswith(("Static", "Const")) and (f_["path"] == x[1] or x[1].endswith("::" + f_["path"]) or f_["path"].endswith("::" + x[1]))]
+                        if holder:
+                            out.extend(module_refs(S.Sym(F).term(holder[0]["body"]), depth + 1))
+            return out
+        listed = module_refs(t)
         # order of subterms is document order
         for p in sorted(statics):
             n = listed.count(p)
@@ -124,7 +137,11 @@ def run(run):
             raise T.AnchorMissing("run_with_ghidra: no `let modules = get_modules()`")
 
         def on_modules(e):
-            return T.root_var_id(e) in mod_ids
+            if T.root_var_id(e) in mod_ids:
+                return True
+            # the module list handed to a helper: a Vec<&CweModule> parameter
+            ty = C.ty(T.peel(e)) or C.ty(e) or ""
+            return "CweModule" in ty and "Vec" in ty and T.root_var_id(e) is not None
 
         def strip(e):
             e = T.peel(e)
@@ -140,14 +157,28 @@ def run(run):
             e = T.peel(e)
             return e.get("k") == "Field" and e.get("fn") == "is_lkm"
 
+        partial_fn = C.fn("filter_modules_for_partial_run")
+        inside_partial = {id(x) for x in T.walk_fn(C, partial_fn)}
+
         def actions(nodes):
             out = []
             for x in nodes:
+                if id(x) in inside_partial:
+                    continue        # what filter_modules_for_partial_run does to the list is R3's subject
                 if x.get("k") == "Call" and x.get("n") in MUTATORS and x.get("a") and on_modules(x["a"][0]):
                     out.append(x)
                 elif x.get("k") in ("Assign", "AssignOp") and on_modules(x["l"]):
                     out.append(x)
             return out
+
+        arg_nodes = {}
+
+        def is_partial_or_param(e):
+            """the --partial argument itself, or a helper parameter that is handed the --partial argument"""
+            if is_partial(e):
+                return True
+            v_ = T.var_id(strip(e))
+            return v_ is not None and any(k_[1] == v_ and is_partial(a_) for k_, a_ in arg_nodes.items())
 
         def scenario(partial, lkm):
             hits = {"partial": 0, "lkm": 0}
@@ -164,8 +195,9 @@ def run(run):
                     hits["lkm"] += 1
                     return ("bool", lkm)
                 return None
-            spec = PE.Spec(C, assume=assume)
+            spec = PE.Spec(C, assume=assume, follow_calls=True)
             nodes = spec.reach(body, {})
+            arg_nodes.update(spec.arg_nodes)
             return nodes, hits
 
         known = sorted(e["name"] for e in statics.values() if e.get("name"))
@@ -241,11 +273,11 @@ def run(run):
         if len(acts) == 1 and acts[0].get("n") == "filter_modules_for_partial_run":
             a1 = acts[0]["a"][1]
             vid = T.var_id(strip(a1))
-            ok = is_partial(a1) or any(is_partial(x) for x in T.walk(a1))
+            ok = is_partial_or_param(a1) or any(is_partial(x) for x in T.walk(a1))
             if not ok and vid is not None:
                 # bound by `if let Some(x) = args.partial` / `match args.partial { Some(x) => .. }` / let
-                for x in T.walk(body):
-                    if x.get("k") in ("Let", "Match") and is_partial(x["e"]) and any(b.get("id") == vid for pp in ([x["p"]] if x.get("k") == "Let" else [a["p"] for a in x["arms"]]) for b in walk_pat(pp)):
+                for x in T.walk_deep(C, body, 2):
+                    if x.get("k") in ("Let", "Match") and is_partial_or_param(x["e"]) and any(b.get("id") == vid for pp in ([x["p"]] if x.get("k") == "Let" else [a["p"] for a in x["arms"]]) for b in walk_pat(pp)):
                         ok = True
                     if x.get("k") == "LetStmt" and "i" in x and any(b.get("id") == vid for b in walk_pat(x["p"])) and any(is_partial(y) for y in T.walk(x["i"])):
                         ok = True
@@ -387,7 +419,9 @@ def run(run):
         all_terms = [t] + [S.Sym(C).term(c["body"]) for c in C.closures(f)]
         pan = any(is_call(x, ("panic_fmt", "panic", "panic_display", "begin_panic", "panic_explicit")) for tt in all_terms for x in S.subterms(tt))
         run.check("R3", "unknown-name-panics", pan, "an unknown non-empty module name must be rejected with a panic; no panic is left in filter_modules_for_partial_run", site)
-        empties = any(is_call(x, "is_empty") for tt in all_terms for x in S.subterms(tt))
+        empties = any(is_call(x, "is_empty") for tt in all_terms for x in S.subterms(tt)) or any(
+            (q.get("k") == "Const" and q.get("v") == "") for b_ in [f] + C.closures(f) for pat, scrut, owner in __import__("rules.lib.slots", fromlist=["x"]).fn_patterns(C, b_, closures=False) for q in walk_pat(pat)) or any(
+            x.get("k") == "Lit" and x.get("v") == "" and x.get("lt") == "str" for x in T.walk_fn(C, f))
         run.check("R3", "empty-name-ignored", empties, "an empty list entry (e.g. a trailing comma) must be ignored rather than rejected", site)
         # the module list is actually replaced / filtered
         assigns = [x for x in S.subterms(t) if isinstance(x, tuple) and x and x[0] == "assign" and any(isinstance(y, tuple) and y and y[0] == "var" and y[1] == "modules" for y in S.subterms(x[1]))]
